@@ -22,6 +22,14 @@ structure Written where
   bodyHash : Nat
   hasBody : Bool
   x : Extras := {}
+  fflags : String := ""                    -- file flags text handed to the writer
+  expHard : Option (List Nat) := none      -- hard-link target the format must return (from the group logic)
+  expNlink : Option Nat := none            -- link count the format computes itself
+  orphan : Bool := false                   -- a link entry whose target was not written before it
+  grp : List (List Nat) := []              -- iso9660: normalised names of the whole link group
+  grpBody : Option (Nat × Nat × Int) := none   -- iso9660: body length, digest and size of the group's file
+
+instance : Inhabited Written := ⟨⟨{}, "", 0, 0, false, {}, "", none, none, false, [], none⟩⟩
 
 structure ReadObs where
   -- (Inhabited below)
@@ -32,8 +40,9 @@ structure ReadObs where
   bodySt : String
   skipped : Bool
   x : Extras := {}
+  fflags : String := ""
 
-instance : Inhabited ReadObs := ⟨⟨{}, 0, 0, "", "", false, {}⟩⟩
+instance : Inhabited ReadObs := ⟨⟨{}, 0, 0, "", "", false, {}, ""⟩⟩
 
 structure OState where
   c02 : Bool := false
@@ -117,9 +126,11 @@ def parseRead (obs : String) : Option ReadObs :=
       rdevmajor := rM, rdevminor := rm
       dev := optInt (kv ws "dev") 0, ino := optInt (kv ws "ino") 0
       nlink := (optInt (kv ws "nlink") 0).toNat }
+    -- mtree spells "no flags" (overriding a /set) `flags=none`
+    let ffl := match kv ws "fflags" with | some "none" => "" | some t => t | none => ""
     match (kv ws "body").map (·.splitOn ":") with
-    | some [l, h, s] => some ⟨rb, ns, l.toNat?.getD 0, h, s, false, parseExtras ws⟩
-    | some ["skipped"] => some ⟨rb, ns, 0, "", "", true, parseExtras ws⟩
+    | some [l, h, s] => some ⟨rb, ns, l.toNat?.getD 0, h, s, false, parseExtras ws, ffl⟩
+    | some ["skipped"] => some ⟨rb, ns, 0, "", "", true, parseExtras ws, ffl⟩
     | _ => none
 
 /-- The body a reader must deliver for a written entry: what was accepted, zero filled
@@ -133,22 +144,143 @@ def expectedBody (e : Entry) (seed len : Nat) (sparse : List (Nat × Nat) := [])
 
 def accepted (f : WFmt) (w : Written) : Bool := w.hst == "ok" || (w.hst == "warn" && f.warnStores)
 
+/-! ### hard-link groups
+
+Which entries of an archive name the same file is a property of the whole archive: tar stores the
+target's name in the link entry (`norm`), the cpio family stores (dev, ino, nlink) and the reader names
+the first member it saw, xar and iso9660 store the link by name and count the links themselves; they can
+only link to a file written *before* the link. -/
+
+def storesLinkByName (f : WFmt) : Bool := f == .xar || f == .iso9660
+def dropsLink (f : WFmt) : Bool :=
+  !(isTar f || isCpio f || storesLinkByName f)
+
+/-- The reader's `record_hardlink` replayed on the written entries: the name a later member of a
+(dev, ino) group gets as its hard-link target. -/
+def cpioExpHard (acc : List Written) : List (List Nat) :=
+  let step (st : LinkTab × List (List Nat)) (w : Written) : LinkTab × List (List Nat) :=
+    let rb : RB := { path := w.e.path.getD [], dev := w.e.dev, ino := w.e.ino, nlink := w.e.nlink.toNat }
+    let r := recordHardlink st.1 rb
+    (r.1, st.2 ++ [r.2.hard])
+  (acc.foldl step ([], [])).2
+
+def linkAdjust (f : WFmt) (acc : List Written) : List Written :=
+  if isCpio f then
+    (acc.zip (cpioExpHard acc)).map fun p => { p.1 with expHard := some p.2 }
+  else if storesLinkByName f then
+    (List.range acc.length).map fun i =>
+      let w := acc.getD i default
+      let before := acc.take i
+      -- the group of `t`: the plain entry of that name and the links written after it
+      let groupOf (t : List Nat) : List Written :=
+        match (List.range acc.length).find? (fun j => (acc.getD j default).e.path == some t && (acc.getD j default).e.hard.isEmpty) with
+        | none => []
+        | some j => (acc.getD j default) :: ((acc.drop (j + 1)).filter fun v => v.e.hard == t)
+      if !w.e.hard.isEmpty then
+        if before.any (fun v => v.e.path == some w.e.hard && v.e.hard.isEmpty) then
+          let g := groupOf w.e.hard
+          let tgt := g.headD w
+          { w with expHard := some w.e.hard, expNlink := some g.length,
+                   grp := g.map (fun v => (norm f v.e).path.getD []),
+                   grpBody := some (tgt.bodyLen, tgt.bodyHash, tgt.e.sizeV) }
+        else { w with orphan := true }
+      else
+        let g := groupOf (w.e.path.getD [])
+        if g.length > 1 then
+          { w with expNlink := some g.length, grp := g.map (fun v => (norm f v.e).path.getD []),
+                   grpBody := some (w.bodyLen, w.bodyHash, w.e.sizeV) }
+        else w
+  else acc
+
+/-! ### mtree writer options: which keywords are written decides which fields come back -/
+
+def mtreeDefaultKeys : List String :=
+  ["device", "flags", "gid", "gname", "link", "mode", "nlink", "size", "time", "type", "uid", "uname"]
+
+def mtreeAllKeys : List String :=
+  mtreeDefaultKeys ++ ["cksum", "inode", "md5", "resdevice", "rmd160", "sha1", "sha256", "sha384", "sha512"]
+
+def mtreeKeys (opts : String) : List String :=
+  (opts.splitOn ",").foldl (fun ks tok =>
+    let t := if tok.startsWith "mtree:" then (tok.drop 6).toString else tok
+    if t == "all" then mtreeAllKeys
+    else if t == "!all" then []
+    else if t.startsWith "!" then ks.filter (· != (t.drop 1).toString)
+    else if mtreeAllKeys.contains t && !ks.contains t then ks ++ [t] else ks) mtreeDefaultKeys
+
+def optHas (opts tok : String) : Bool :=
+  (opts.splitOn ",").any fun t => t == tok || t == "mtree:" ++ tok
+
+/-- The expectation restricted to the keywords an mtree archive was written with. -/
+def Exp.mtreeKeys (x : Exp) (ks : List String) : Exp :=
+  let has (k : String) : Bool := ks.contains k
+  { x with ftype := if has "type" then x.ftype else none
+           perm := if has "mode" then x.perm else none
+           uid := if has "uid" then x.uid else none
+           gid := if has "gid" then x.gid else none
+           uname := if has "uname" then x.uname else none
+           gname := if has "gname" then x.gname else none
+           mtime := if has "time" then x.mtime else none
+           mtimeNs := if has "time" then x.mtimeNs else none
+           size := if has "size" then x.size else none
+           sym := if has "link" && has "type" then x.sym else none
+           rdev := if has "device" && has "type" then x.rdev else none }
+
+def carriesFflags : WFmt → Bool
+  | .pax | .paxr | .mtree => true | _ => false
+
 /-- `norm` completed by what the extras say: an unset mtime, and the Joliet view of an image. -/
-def normX (f : WFmt) (joliet : Bool) (e : Entry) (x : Extras) : Exp :=
+def normX (f : WFmt) (joliet : Bool) (e : Entry) (x : Extras) (opts : String := "") : Exp :=
   let n := norm f e
   let n := if x.mtimeSet then n else { n with mtime := unsetMtimeReads f, mtimeNs := none }
+  let n := if f == .mtree then n.mtreeKeys (mtreeKeys opts) else n
   if joliet then n.joliet e.ftype else n
 
+/-- What the link-group logic adds to the per-entry expectation. -/
+def linkMismatch (f : WFmt) (w : Written) (r : ReadObs) : Option String :=
+  if w.orphan then
+    (if r.rb.hard == w.e.hard then none
+     else some "hard link entry written before (or without) its target stored as a plain file")
+  else if !w.e.hard.isEmpty && dropsLink f then
+    some "hard link target not stored: the entry is kept as an empty file"
+  else
+    let h : Option String := match w.expHard with
+      | some t =>
+        if f == .iso9660 then
+          (if r.rb.hard.isEmpty || w.grp.contains r.rb.hard then none
+           else some s!"hard wrote={t} read={r.rb.hard}")
+        else if r.rb.hard == t then none else some s!"hard wrote={t} read={r.rb.hard}"
+      | none =>
+        if f == .iso9660 && !w.grp.isEmpty && !(r.rb.hard.isEmpty || w.grp.contains r.rb.hard) then
+          some s!"hard wrote=[] read={r.rb.hard}" else none
+    h.orElse fun _ => match w.expNlink with
+      | some n => if r.rb.nlink == n then none else some s!"nlink wrote={n} read={r.rb.nlink}"
+      | none => none
+
 /-- Check one (written, read) pair. -/
-def checkPair (c02 : Bool) (f : WFmt) (tag : String) (w : Written) (r : ReadObs) (joliet : Bool := false) : Option String :=
+def checkPair (c02 : Bool) (f : WFmt) (tag : String) (w0 : Written) (r : ReadObs) (joliet : Bool := false)
+    (opts : String := "") : Option String :=
+  -- iso9660 names one member of a link group as the file (with the body) and the others as links to it
+  let isoMember := f == .iso9660 && !w0.grp.isEmpty && !w0.orphan
+  let w : Written := match isoMember, w0.grpBody with
+    | true, some (bl, bh, sz) =>
+      if r.rb.hard.isEmpty then { w0 with bodyLen := bl, bodyHash := bh, e := { w0.e with size := some sz, hard := [] } }
+      else { w0 with hasBody := false, e := { w0.e with hard := [] } }
+    | _, _ => w0
   if c02 && representable f w.e && w.hst != "ok" then
     some s!"C02 {tag} representable entry not accepted status={w.hst}"
   else if w.hst != "ok" then none        -- reported: nothing is promised about the stored value
   else if w.e.path.isNone then some s!"C10 {tag} status=ok field=path missing mandatory field"
   else if w.e.ftype = .none && w.e.hard.isEmpty then some s!"C10 {tag} status=ok field=type missing mandatory field"
   else
-    match ((normX f joliet w.e w.x).mismatch r.rb r.nsec).orElse
-          (fun _ => if joliet then none else Extras.mismatch f w.e.mtime w.e.sizeV.toNat w.x r.x) with
+    let nx := normX f joliet w.e w.x opts
+    let nx := if isoMember && !r.rb.hard.isEmpty then { nx with size := none } else nx
+    let nx := if w0.orphan || (!w0.e.hard.isEmpty && (dropsLink f || storesLinkByName f)) then { nx with size := none } else nx
+    match ((nx.mismatch r.rb r.nsec).orElse
+          (fun _ => if joliet then none else Extras.mismatch f w.e.mtime w.e.sizeV.toNat w.x r.x)).orElse
+          (fun _ => (if joliet then none else linkMismatch f w0 r).orElse fun _ =>
+            if carriesFflags f && !joliet && (f != .mtree || (mtreeKeys opts).contains "flags") && w.fflags != r.fflags then
+              some s!"fflags wrote={w.fflags} read={r.fflags}" else none) with
     | some m => some s!"C10 {tag} status=ok field={m}"
     | none =>
       if r.rb.st != .ok then some s!"C10 {tag} status=ok field=readstatus read={r.rb.st.str}"
@@ -189,6 +321,9 @@ def rewriteVerdict (s : OState) (f : WFmt) : Option String :=
             (fun _ => Extras.mismatch g (r1.rb.mtime.getD 0) (r1.rb.size.getD 0).toNat r1.x r2.x) with
       | some m => some s!"C02 {tag} status=ok field={m}"
       | none =>
+        if carriesFflags g && carriesFflags f && r1.fflags != r2.fflags then
+          some s!"C02 {tag} status=ok field=fflags wrote={r1.fflags} read={r2.fflags}"
+        else
         if (norm g r1.rb.toEntry).body && (norm f r1.rb.toEntry).body && !r1.skipped
             && (r1.bodyLen != r2.bodyLen || r1.bodyHash != r2.bodyHash) then
           some s!"C02 {tag} status=ok field=body differs"
@@ -223,7 +358,9 @@ def verdict (s : OState) : String :=
     if s.written.any (fun w => w.hst.startsWith "!") then s!"C10 f={f.name} crashed in archive_write_header" else
     if s.closeSt.startsWith "!" then s!"C02 f={f.name} crashed in archive_write_close" else
     if !s.closed then "ok" else
-    let acc := s.written.filter (accepted f)
+    let acc := linkAdjust f (s.written.filter (accepted f))
+    let dironly := f == .mtree && optHas s.wopt "dironly"
+    let acc := if dironly then acc.filter (fun w => w.e.ftype == .dir) else acc   -- `dironly`: nothing else is written
     let hasSub (h n : String) : Bool := (h.splitOn n).length > 1
     -- the Joliet tree is what is read when Rock Ridge is switched off on either side
     let joliet := f == .iso9660 && (hasSub s.ropt "!rockridge" || hasSub s.wopt "!rockridge")
@@ -259,7 +396,7 @@ def verdict (s : OState) : String :=
         let twice (w : Written) : Bool := (acc.filter fun v => (norm f v.e).path == (norm f w.e).path).length > 1
         let miss := oks.findSome? fun w =>
           match s.reads.find? (fun r => same r w) with
-          | some r => (checkPair s.c02 f tag w { r with rb := { r.rb with path := (norm f w.e).path.getD [] } } joliet).map
+          | some r => (checkPair s.c02 f tag w { r with rb := { r.rb with path := (norm f w.e).path.getD [] } } joliet s.wopt).map
                         fun m => if twice w then m ++ " (pathname written twice)" else m
           | none => some s!"C10 {tag} accepted entry not read back path={LA.toHex ((norm f w.e).path.getD [])}"
         miss.orElse fun _ =>
@@ -271,7 +408,7 @@ def verdict (s : OState) : String :=
           else none
       else
         let rec go : List Written → List ReadObs → Option String
-          | w :: ws, r :: rs => (checkPair s.c02 f tag w r).orElse fun _ => go ws rs
+          | w :: ws, r :: rs => (checkPair s.c02 f tag w r false s.wopt).orElse fun _ => go ws rs
           | w :: _, [] => if s.aborted then none else some s!"C10 {tag} accepted entry not read back path={LA.toHex (w.e.path.getD [])}"
           | [], r :: _ => some s!"C10 {tag} entry read back that was never accepted path={LA.toHex r.rb.path}"
           | [], [] => none
@@ -313,7 +450,8 @@ def oStep (s : OState) (op obs : String) : OState × String :=
     let x := parseExtras ws
     let body := if e.sizeV ≤ 65536 then expectedBody e seed len x.sparse else []
     let w : Written := { e := e, hst := hst, bodyLen := body.length, bodyHash := LA.fnv1a body,
-                         hasBody := e.sizeV ≤ 65536 && (kv ws "nofinish").isNone, x := x }
+                         hasBody := e.sizeV ≤ 65536 && (kv ws "nofinish").isNone, x := x,
+                         fflags := match kv ws "fflags" with | some "-" => "" | some t => t | none => "" }
     if hst == "?" then ({ s with bad := some "ent line without status" }, "-")
     else ({ s with written := s.written ++ [w] }, "-")
   | [c] =>
